@@ -266,8 +266,14 @@ def rule_clean(ctx):
     for n in scope:
         if isinstance(n, ast.Compare) and len(n.ops) == 1 and isinstance(n.ops[0], (ast.In, ast.NotIn)):
             # the kept-name collection may be a literal or a module-level constant: evaluate it
+            comp = n.comparators[0]
+            if isinstance(comp, ast.Name):
+                # the collection held in a local assigned once (`builtin = ('sps', ...)`)
+                defs_ = [a_.value for a_ in scope if isinstance(a_, ast.Assign) and len(a_.targets) == 1 and isinstance(a_.targets[0], ast.Name) and a_.targets[0].id == comp.id]
+                if len(defs_) == 1:
+                    comp = defs_[0]
             try:
-                cv = Interp(pkg, self_class=GV_CLASS).eval(n.comparators[0], State(), clean, 0)
+                cv = Interp(pkg, self_class=GV_CLASS).eval(comp, State(), clean, 0)
             except Exception:
                 cv = None
             if isinstance(cv, TupleV) and cv.items and all(isinstance(e, Const) and isinstance(e.v, str) for e in cv.items):
